@@ -1237,7 +1237,7 @@ result_t NumberDataType::parseInput(const string inputStr, unsigned int* parsedV
         }
       } else {
         double dvalue = strtod(str, &strEnd);
-        if (errno == ERANGE || strEnd == nullptr || strEnd == str || *strEnd != 0) {
+        if (errno == ERANGE || strEnd == nullptr || strEnd == str || *strEnd != 0 || !isfinite(dvalue)) {
           return RESULT_ERR_INVALID_NUM;  // invalid value
         }
         if (m_divisor < 0) {
